@@ -328,3 +328,334 @@ package bluemonday
 //@     invariant[C17] forall k int :: 0 <= k && k <= rangeindex ==> abp.attrNames[k] in abp.p.globalAttrs
 //@     invariant[C17] forall a string, j int :: old(a in abp.p.globalAttrs && 0 <= j && j < len(abp.p.globalAttrs[a])) ==> j < len(abp.p.globalAttrs[a]) && abp.p.globalAttrs[a][j] == old(abp.p.globalAttrs[a][j])
 //@     invariant forall a string :: a in abp.p.globalAttrs ==> arr(abp.p.globalAttrs[a]) == nil || allocated(arr(abp.p.globalAttrs[a]))
+
+//@ func (*bluemonday.attrPolicyBuilder).OnElements
+//@   reveal wfRegex, wfInner, wfURLPols
+//@   requires wfb(abp)
+//@   modifies abp.p.elsAndAttrs, abp.p.setOfElementsAllowedWithoutAttrs
+//@   modifies r :: exists e string :: e in abp.p.elsAndAttrs && r == ref(abp.p.elsAndAttrs[e])
+//@   ensures result == abp.p && wfp(abp.p) && abp.p.initialized
+//@   ensures[C17] forall e string :: old(e in abp.p.elsAndAttrs) ==> e in abp.p.elsAndAttrs
+//@   ensures[C17] forall e string, a string, j int :: old(e in abp.p.elsAndAttrs && a in abp.p.elsAndAttrs[e] && 0 <= j && j < len(abp.p.elsAndAttrs[e][a])) ==> (a in abp.p.elsAndAttrs[e] && j < len(abp.p.elsAndAttrs[e][a]) && abp.p.elsAndAttrs[e][a][j] == old(abp.p.elsAndAttrs[e][a][j]))
+//@   loop 0 "for _, element := range elements"
+//@     invariant wfb(abp) && abp.p == old(abp.p) && abp.p.elsAndAttrs == old(abp.p.elsAndAttrs) && abp.p.setOfElementsAllowedWithoutAttrs == old(abp.p.setOfElementsAllowedWithoutAttrs) && abp.attrNames == old(abp.attrNames) && abp.regexp == old(abp.regexp) && abp.allowEmpty == old(abp.allowEmpty)
+//@     invariant forall i int :: 0 <= i && i < len(elements) ==> elements[i] == pre(elements[i])
+//@     invariant forall e string :: e in abp.p.elsAndAttrs ==> (old(e in abp.p.elsAndAttrs) && abp.p.elsAndAttrs[e] == old(abp.p.elsAndAttrs[e])) || fresh(abp.p.elsAndAttrs[e])
+//@     invariant[C17] forall e string :: old(e in abp.p.elsAndAttrs) ==> e in abp.p.elsAndAttrs
+//@     invariant[C17] forall e string, a string, j int :: old(e in abp.p.elsAndAttrs && a in abp.p.elsAndAttrs[e] && 0 <= j && j < len(abp.p.elsAndAttrs[e][a])) ==> (a in abp.p.elsAndAttrs[e] && j < len(abp.p.elsAndAttrs[e][a]) && abp.p.elsAndAttrs[e][a][j] == old(abp.p.elsAndAttrs[e][a][j]))
+//@     invariant forall e string, a string :: e in abp.p.elsAndAttrs && a in abp.p.elsAndAttrs[e] ==> arr(abp.p.elsAndAttrs[e][a]) == nil || allocated(arr(abp.p.elsAndAttrs[e][a]))
+//@   loop 1 "for _, attr := range abp.attrNames"
+//@     invariant wfb(abp) && abp.p == old(abp.p) && abp.p.elsAndAttrs == old(abp.p.elsAndAttrs) && abp.p.setOfElementsAllowedWithoutAttrs == old(abp.p.setOfElementsAllowedWithoutAttrs) && abp.attrNames == old(abp.attrNames) && abp.regexp == old(abp.regexp) && abp.allowEmpty == old(abp.allowEmpty)
+//@     invariant forall i int :: 0 <= i && i < len(elements) ==> elements[i] == pre(elements[i])
+//@     invariant forall e string :: e in abp.p.elsAndAttrs ==> (old(e in abp.p.elsAndAttrs) && abp.p.elsAndAttrs[e] == old(abp.p.elsAndAttrs[e])) || fresh(abp.p.elsAndAttrs[e])
+//@     invariant[C17] forall e string :: old(e in abp.p.elsAndAttrs) ==> e in abp.p.elsAndAttrs
+//@     invariant[C17] forall e string, a string, j int :: old(e in abp.p.elsAndAttrs && a in abp.p.elsAndAttrs[e] && 0 <= j && j < len(abp.p.elsAndAttrs[e][a])) ==> (a in abp.p.elsAndAttrs[e] && j < len(abp.p.elsAndAttrs[e][a]) && abp.p.elsAndAttrs[e][a][j] == old(abp.p.elsAndAttrs[e][a][j]))
+//@     invariant forall e string, a string :: e in abp.p.elsAndAttrs && a in abp.p.elsAndAttrs[e] ==> arr(abp.p.elsAndAttrs[e][a]) == nil || allocated(arr(abp.p.elsAndAttrs[e][a]))
+
+//@ func (*bluemonday.attrPolicyBuilder).OnElementsMatching
+//@   reveal wfRegex, wfInner, wfURLPols
+//@   requires wfb(abp) && regex != nil
+//@   modifies abp.p, abp.p.elsMatchingAndAttrs
+//@   modifies r :: exists e *regexp.Regexp :: e in abp.p.elsMatchingAndAttrs && r == ref(abp.p.elsMatchingAndAttrs[e])
+//@   ensures result == abp.p && wfp(abp.p) && abp.p.initialized
+//@   ensures[C17] forall e *regexp.Regexp :: old(e in abp.p.elsMatchingAndAttrs) ==> e in abp.p.elsMatchingAndAttrs
+//@   loop 0 "for _, attr := range abp.attrNames"
+//@     invariant wfb(abp) && abp.p == old(abp.p) && abp.p.elsMatchingAndAttrs == old(abp.p.elsMatchingAndAttrs) && abp.attrNames == old(abp.attrNames) && abp.regexp == old(abp.regexp) && abp.allowEmpty == old(abp.allowEmpty)
+//@     invariant forall e *regexp.Regexp :: e in abp.p.elsMatchingAndAttrs ==> (old(e in abp.p.elsMatchingAndAttrs) && abp.p.elsMatchingAndAttrs[e] == old(abp.p.elsMatchingAndAttrs[e])) || fresh(abp.p.elsMatchingAndAttrs[e])
+//@     invariant[C17] forall e *regexp.Regexp :: old(e in abp.p.elsMatchingAndAttrs) ==> e in abp.p.elsMatchingAndAttrs
+
+//@ func (*bluemonday.Policy).AllowStyles
+//@   reveal wfRegex, wfInner, wfURLPols
+//@   requires wfp(p)
+//@   modifies p when !p.initialized
+//@   ensures wfp(p) && p.initialized && wfsb(result) && fresh(result) && result.p == p
+//@   ensures[C17] len(result.propertyNames) == len(propertyNames) && (forall i int :: 0 <= i && i < len(propertyNames) ==> result.propertyNames[i] == strings.ToLower(propertyNames[i]))
+//@   loop 0 "for _, propertyName := range propertyNames"
+//@     invariant wfp(p) && p.initialized
+//@     invariant[C17] len(abp.propertyNames) == rangeindex + 1 && (forall i int :: 0 <= i && i <= rangeindex ==> abp.propertyNames[i] == strings.ToLower(propertyNames[i]))
+//@     invariant abp.p == p && rangeindex < len(propertyNames)
+
+//@ func (*bluemonday.stylePolicyBuilder).Matching
+//@   requires wfsb(spb)
+//@   modifies spb
+//@   ensures result == spb && wfsb(spb) && spb.regexp == regex && spb.p == old(spb.p) && spb.propertyNames == old(spb.propertyNames) && spb.enum == old(spb.enum) && spb.handler == old(spb.handler)
+
+//@ func (*bluemonday.stylePolicyBuilder).MatchingEnum
+//@   requires wfsb(spb)
+//@   modifies spb
+//@   ensures result == spb && wfsb(spb) && spb.enum == enum && spb.p == old(spb.p) && spb.propertyNames == old(spb.propertyNames) && spb.regexp == old(spb.regexp) && spb.handler == old(spb.handler)
+
+//@ func (*bluemonday.stylePolicyBuilder).MatchingHandler
+//@   requires wfsb(spb)
+//@   modifies spb
+//@   ensures result == spb && wfsb(spb) && spb.handler == handler && spb.p == old(spb.p) && spb.propertyNames == old(spb.propertyNames) && spb.regexp == old(spb.regexp) && spb.enum == old(spb.enum)
+
+//@ func (*bluemonday.stylePolicyBuilder).OnElements
+//@   reveal wfRegex, wfInner, wfURLPols
+//@   requires wfsb(spb)
+//@   modifies spb.p.elsAndStyles
+//@   modifies r :: exists e string :: e in spb.p.elsAndStyles && r == ref(spb.p.elsAndStyles[e])
+//@   ensures result == spb.p && wfp(spb.p) && spb.p.initialized
+//@   ensures[C17] forall e string :: old(e in spb.p.elsAndStyles) ==> e in spb.p.elsAndStyles
+//@   loop 0 "for _, element := range elements"
+//@     invariant wfsb(spb) && spb.p == old(spb.p) && spb.p.elsAndStyles == old(spb.p.elsAndStyles)
+//@     invariant forall e string :: e in spb.p.elsAndStyles ==> (old(e in spb.p.elsAndStyles) && spb.p.elsAndStyles[e] == old(spb.p.elsAndStyles[e])) || fresh(spb.p.elsAndStyles[e])
+//@     invariant[C17] forall e string :: old(e in spb.p.elsAndStyles) ==> e in spb.p.elsAndStyles
+//@   loop 1 "for _, attr := range spb.propertyNames"
+//@     invariant wfsb(spb) && spb.p == old(spb.p) && spb.p.elsAndStyles == old(spb.p.elsAndStyles)
+//@     invariant forall e string :: e in spb.p.elsAndStyles ==> (old(e in spb.p.elsAndStyles) && spb.p.elsAndStyles[e] == old(spb.p.elsAndStyles[e])) || fresh(spb.p.elsAndStyles[e])
+//@     invariant[C17] forall e string :: old(e in spb.p.elsAndStyles) ==> e in spb.p.elsAndStyles
+
+//@ func (*bluemonday.stylePolicyBuilder).OnElementsMatching
+//@   reveal wfRegex, wfInner, wfURLPols
+//@   requires wfsb(spb) && regex != nil
+//@   modifies spb.p.elsMatchingAndStyles
+//@   modifies r :: exists e *regexp.Regexp :: e in spb.p.elsMatchingAndStyles && r == ref(spb.p.elsMatchingAndStyles[e])
+//@   ensures result == spb.p && wfp(spb.p) && spb.p.initialized
+//@   loop 0 "for _, attr := range spb.propertyNames"
+//@     invariant wfsb(spb) && spb.p == old(spb.p) && spb.p.elsMatchingAndStyles == old(spb.p.elsMatchingAndStyles)
+//@     invariant forall e *regexp.Regexp :: e in spb.p.elsMatchingAndStyles ==> (old(e in spb.p.elsMatchingAndStyles) && spb.p.elsMatchingAndStyles[e] == old(spb.p.elsMatchingAndStyles[e])) || fresh(spb.p.elsMatchingAndStyles[e])
+
+//@ func (*bluemonday.stylePolicyBuilder).Globally
+//@   reveal wfRegex, wfInner, wfURLPols
+//@   requires wfsb(spb)
+//@   modifies spb.p.globalStyles
+//@   ensures result == spb.p && wfp(spb.p) && spb.p.initialized
+//@   ensures[C17] forall a string :: old(a in spb.p.globalStyles) ==> a in spb.p.globalStyles
+//@   loop 0 "for _, attr := range spb.propertyNames"
+//@     invariant wfsb(spb) && spb.p == old(spb.p) && spb.p.globalStyles == old(spb.p.globalStyles)
+//@     invariant[C17] forall a string :: old(a in spb.p.globalStyles) ==> a in spb.p.globalStyles
+
+//@ func (*bluemonday.Policy).AllowElements
+//@   reveal wfRegex, wfInner, wfURLPols
+//@   requires wfp(p)
+//@   modifies p when !p.initialized
+//@   modifies p.elsAndAttrs
+//@   ensures result == p && wfp(p) && p.initialized
+//@   ensures[C17] forall e string :: old(p.initialized && e in p.elsAndAttrs) ==> e in p.elsAndAttrs && p.elsAndAttrs[e] == old(p.elsAndAttrs[e])
+//@   ensures[C17] forall i int :: 0 <= i && i < len(names) ==> strings.ToLower(names[i]) in p.elsAndAttrs
+//@   loop 0 "for _, element := range names"
+//@     invariant wfp(p) && p.initialized && (old(p.initialized) ==> p.elsAndAttrs == old(p.elsAndAttrs))
+//@     invariant forall i int :: 0 <= i && i < len(names) ==> names[i] == pre(names[i])
+//@     invariant[C17] forall e string :: old(p.initialized && e in p.elsAndAttrs) ==> e in p.elsAndAttrs && p.elsAndAttrs[e] == old(p.elsAndAttrs[e])
+//@     invariant[C17] forall i int :: 0 <= i && i <= rangeindex ==> strings.ToLower(names[i]) in p.elsAndAttrs
+
+//@ func (*bluemonday.Policy).AllowElementsMatching
+//@   reveal wfRegex, wfInner, wfURLPols
+//@   requires wfp(p) && regex != nil
+//@   modifies p when !p.initialized
+//@   modifies p.elsMatchingAndAttrs
+//@   ensures result == p && wfp(p) && p.initialized
+//@   ensures[C17] regex in p.elsMatchingAndAttrs && (forall r *regexp.Regexp :: old(p.initialized && r in p.elsMatchingAndAttrs) ==> r in p.elsMatchingAndAttrs)
+
+//@ func (*bluemonday.Policy).AllowURLSchemesMatching
+//@   reveal wfRegex, wfInner, wfURLPols
+//@   requires wfp(p) && r != nil
+//@   modifies p
+//@   ensures result == p && wfp(p) && p.initialized == old(p.initialized)
+//@   ensures[C17] len(p.allowURLSchemeRegexps) == old(len(p.allowURLSchemeRegexps)) + 1 && p.allowURLSchemeRegexps[old(len(p.allowURLSchemeRegexps))] == r && (forall i int :: 0 <= i && i < old(len(p.allowURLSchemeRegexps)) ==> p.allowURLSchemeRegexps[i] == old(p.allowURLSchemeRegexps[i]))
+
+//@ func (*bluemonday.Policy).RewriteSrc
+//@   reveal wfRegex, wfInner, wfURLPols
+//@   requires wfp(p)
+//@   modifies p
+//@   ensures result == p && wfp(p) && p.srcRewriter == fn && p.initialized == old(p.initialized)
+
+//@ func (*bluemonday.Policy).RequireNoFollowOnLinks
+//@   reveal wfRegex, wfInner, wfURLPols
+//@   requires wfp(p)
+//@   modifies p
+//@   ensures result == p && wfp(p) && p.initialized == old(p.initialized)
+//@   ensures[C03,C17] p.requireNoFollow == require && p.requireParseableURLs
+
+//@ func (*bluemonday.Policy).RequireNoFollowOnFullyQualifiedLinks
+//@   reveal wfRegex, wfInner, wfURLPols
+//@   requires wfp(p)
+//@   modifies p
+//@   ensures result == p && wfp(p) && p.initialized == old(p.initialized)
+//@   ensures[C03,C17] p.requireNoFollowFullyQualifiedLinks == require && p.requireParseableURLs
+
+//@ func (*bluemonday.Policy).RequireNoReferrerOnLinks
+//@   reveal wfRegex, wfInner, wfURLPols
+//@   requires wfp(p)
+//@   modifies p
+//@   ensures result == p && wfp(p) && p.initialized == old(p.initialized)
+//@   ensures[C03,C17] p.requireNoReferrer == require && p.requireParseableURLs
+
+//@ func (*bluemonday.Policy).RequireNoReferrerOnFullyQualifiedLinks
+//@   reveal wfRegex, wfInner, wfURLPols
+//@   requires wfp(p)
+//@   modifies p
+//@   ensures result == p && wfp(p) && p.initialized == old(p.initialized)
+//@   ensures[C03,C17] p.requireNoReferrerFullyQualifiedLinks == require && p.requireParseableURLs
+
+//@ func (*bluemonday.Policy).RequireCrossOriginAnonymous
+//@   reveal wfRegex, wfInner, wfURLPols
+//@   requires wfp(p)
+//@   modifies p
+//@   ensures result == p && wfp(p) && p.initialized == old(p.initialized)
+//@   ensures[C12,C17] p.requireCrossOriginAnonymous == require
+
+//@ func (*bluemonday.Policy).AddTargetBlankToFullyQualifiedLinks
+//@   reveal wfRegex, wfInner, wfURLPols
+//@   requires wfp(p)
+//@   modifies p
+//@   ensures result == p && wfp(p) && p.initialized == old(p.initialized)
+//@   ensures[C03,C17] p.addTargetBlankToFullyQualifiedLinks == require && p.requireParseableURLs
+
+//@ func (*bluemonday.Policy).RequireParseableURLs
+//@   reveal wfRegex, wfInner, wfURLPols
+//@   requires wfp(p)
+//@   modifies p
+//@   ensures result == p && wfp(p) && p.initialized == old(p.initialized)
+//@   ensures[C03,C17] p.requireParseableURLs == require
+
+//@ func (*bluemonday.Policy).AllowRelativeURLs
+//@   reveal wfRegex, wfInner, wfURLPols
+//@   requires wfp(p)
+//@   modifies p
+//@   ensures result == p && wfp(p) && p.initialized == old(p.initialized)
+//@   ensures[C03,C17] p.allowRelativeURLs == require && p.requireParseableURLs
+
+//@ func (*bluemonday.Policy).AllowURLSchemes
+//@   reveal wfRegex, wfInner, wfURLPols
+//@   requires wfp(p)
+//@   modifies p
+//@   modifies p.allowURLSchemes
+//@   ensures result == p && wfp(p) && p.initialized
+//@   ensures[C03,C17] p.requireParseableURLs
+//@   ensures[C17] forall i int :: 0 <= i && i < len(schemes) ==> strings.ToLower(schemes[i]) in p.allowURLSchemes && len(p.allowURLSchemes[strings.ToLower(schemes[i])]) == 0
+//@   ensures[C17] forall s string :: old(p.initialized && s in p.allowURLSchemes) ==> s in p.allowURLSchemes
+//@   loop 0 "for _, scheme := range schemes"
+//@     invariant wfp(p) && p.initialized && (old(p.initialized) ==> p.allowURLSchemes == old(p.allowURLSchemes))
+//@     invariant[C03,C17] p.requireParseableURLs
+//@     invariant forall i int :: 0 <= i && i < len(schemes) ==> schemes[i] == pre(schemes[i])
+//@     invariant[C17] forall i int :: 0 <= i && i <= rangeindex ==> strings.ToLower(schemes[i]) in p.allowURLSchemes && len(p.allowURLSchemes[strings.ToLower(schemes[i])]) == 0
+//@     invariant[C17] forall s string :: old(p.initialized && s in p.allowURLSchemes) ==> s in p.allowURLSchemes
+
+//@ func (*bluemonday.Policy).AllowURLSchemeWithCustomPolicy
+//@   reveal wfRegex, wfInner, wfURLPols
+//@   requires wfp(p) && urlPolicy != nil
+//@   modifies p
+//@   modifies p.allowURLSchemes
+//@   ensures result == p && wfp(p) && p.initialized
+//@   ensures[C03,C17] p.requireParseableURLs && strings.ToLower(scheme) in p.allowURLSchemes && len(p.allowURLSchemes[strings.ToLower(scheme)]) >= 1
+
+//@ func (*bluemonday.Policy).AddSpaceWhenStrippingTag
+//@   reveal wfRegex, wfInner, wfURLPols
+//@   requires wfp(p)
+//@   modifies p
+//@   ensures result == p && wfp(p) && p.initialized == old(p.initialized)
+//@   ensures[C17] p.addSpaces == allow
+
+//@ func (*bluemonday.Policy).AllowDataAttributes
+//@   reveal wfRegex, wfInner, wfURLPols
+//@   requires wfp(p)
+//@   modifies p
+//@   ensures wfp(p) && p.initialized == old(p.initialized) && p.allowDataAttributes
+
+//@ func (*bluemonday.Policy).AllowComments
+//@   reveal wfRegex, wfInner, wfURLPols
+//@   requires wfp(p)
+//@   modifies p
+//@   ensures wfp(p) && p.initialized == old(p.initialized) && p.allowComments
+
+//@ func (*bluemonday.Policy).AllowUnsafe
+//@   reveal wfRegex, wfInner, wfURLPols
+//@   requires wfp(p)
+//@   modifies p
+//@   ensures result == p && wfp(p) && p.initialized
+//@   ensures[C17] p.allowUnsafe == allowUnsafe
+
+//@ func (*bluemonday.Policy).SkipElementsContent
+//@   reveal wfRegex, wfInner, wfURLPols
+//@   requires wfp(p)
+//@   modifies p when !p.initialized
+//@   modifies p.setOfElementsToSkipContent
+//@   ensures result == p && wfp(p) && p.initialized
+//@   ensures[C17] forall i int :: 0 <= i && i < len(names) ==> strings.ToLower(names[i]) in p.setOfElementsToSkipContent
+//@   ensures[C17] forall e string :: old(p.initialized && e in p.setOfElementsToSkipContent) ==> e in p.setOfElementsToSkipContent
+//@   loop 0 "for _, element := range names"
+//@     invariant wfp(p) && p.initialized && (old(p.initialized) ==> p.setOfElementsToSkipContent == old(p.setOfElementsToSkipContent))
+//@     invariant forall i int :: 0 <= i && i < len(names) ==> names[i] == pre(names[i])
+//@     invariant[C17] forall i int :: 0 <= i && i <= rangeindex ==> strings.ToLower(names[i]) in p.setOfElementsToSkipContent
+//@     invariant[C17] forall e string :: old(p.initialized && e in p.setOfElementsToSkipContent) ==> e in p.setOfElementsToSkipContent
+
+//@ func (*bluemonday.Policy).AllowElementsContent
+//@   reveal wfRegex, wfInner, wfURLPols
+//@   requires wfp(p)
+//@   modifies p when !p.initialized
+//@   modifies p.setOfElementsToSkipContent
+//@   ensures result == p && wfp(p) && p.initialized
+//@   ensures[C17] forall i int :: 0 <= i && i < len(names) ==> !(strings.ToLower(names[i]) in p.setOfElementsToSkipContent)
+//@   loop 0 "for _, element := range names"
+//@     invariant wfp(p) && p.initialized && (old(p.initialized) ==> p.setOfElementsToSkipContent == old(p.setOfElementsToSkipContent))
+//@     invariant forall i int :: 0 <= i && i < len(names) ==> names[i] == pre(names[i])
+//@     invariant[C17] forall i int :: 0 <= i && i <= rangeindex ==> !(strings.ToLower(names[i]) in p.setOfElementsToSkipContent)
+
+//@ func (*bluemonday.Policy).RequireSandboxOnIFrame
+//@   reveal wfRegex, wfInner, wfURLPols
+//@   requires wfp(p)
+//@   modifies p
+//@   ensures wfp(p) && p.initialized == old(p.initialized)
+//@   ensures[C12,C17] p.requireSandboxOnIFrame != nil && fresh(p.requireSandboxOnIFrame)
+//@   loop 0 "for _, val := range vals"
+//@     invariant wfp(p) && p.initialized == old(p.initialized) && p.requireSandboxOnIFrame != nil && fresh(p.requireSandboxOnIFrame)
+
+//@ func (*bluemonday.Policy).AllowStandardURLs
+//@   reveal wfRegex, wfInner, wfURLPols
+//@   requires wfp(p)
+//@   ensures wfp(p) && p.initialized
+
+//@ func (*bluemonday.Policy).AllowStandardAttributes
+//@   reveal wfRegex, wfInner, wfURLPols
+//@   requires wfp(p)
+//@   ensures wfp(p) && p.initialized
+
+//@ func (*bluemonday.Policy).AllowStyling
+//@   reveal wfRegex, wfInner, wfURLPols
+//@   requires wfp(p)
+//@   ensures wfp(p) && p.initialized
+
+//@ func (*bluemonday.Policy).AllowImages
+//@   reveal wfRegex, wfInner, wfURLPols
+//@   requires wfp(p)
+//@   ensures wfp(p) && p.initialized
+
+//@ func (*bluemonday.Policy).AllowDataURIImages
+//@   reveal wfRegex, wfInner, wfURLPols
+//@   requires wfp(p)
+//@   ensures wfp(p) && p.initialized
+
+//@ func (*bluemonday.Policy).AllowLists
+//@   reveal wfRegex, wfInner, wfURLPols
+//@   requires wfp(p)
+//@   ensures wfp(p) && p.initialized
+
+//@ func (*bluemonday.Policy).AllowTables
+//@   reveal wfRegex, wfInner, wfURLPols
+//@   requires wfp(p)
+//@   ensures wfp(p) && p.initialized
+
+//@ func (*bluemonday.Policy).AllowIFrames
+//@   reveal wfRegex, wfInner, wfURLPols
+//@   requires wfp(p)
+//@   ensures wfp(p) && p.initialized
+//@   ensures[C12] p.requireSandboxOnIFrame != nil
+
+//@ func bluemonday.StrictPolicy
+//@   ensures result != nil && fresh(result) && wfp(result) && result.initialized
+//@   ensures[C04] forall e string :: !(e in result.elsAndAttrs)
+//@   ensures[C04] forall r *regexp.Regexp :: !(r in result.elsMatchingAndAttrs)
+//@   ensures[C04] !result.allowComments && !result.allowUnsafe
+
+//@ func bluemonday.StripTagsPolicy
+//@   ensures result != nil && fresh(result) && wfp(result) && result.initialized
+
+//@ func bluemonday.UGCPolicy
+//@   reveal wfRegex, wfInner, wfURLPols
+//@   ensures result != nil && fresh(result) && wfp(result) && result.initialized
+
+//@ func (*bluemonday.Policy).AllowDataURIImages$1
+//@   requires url != nil
+//@   modifies nothing
